@@ -214,3 +214,7 @@ def run(rep, programs):
                 lits = sorted(set(consts))
                 rep.check(set(consts) == {M, w - 1}, rule2, "order%d|constants" % k, "M = %#x, shift = %d" % (M, w - 1),
                           "order %d: constants %s, expected lane mask %#x and shift %d" % (k, [hex(c) for c in lits], M, w - 1), b.span)
+    # the row search is applied to the current row value inside one atomic update, and the reported offset is the one it returned
+    from props import c01
+    c01.r_return_claimed(rep, prog)
+    c01.r_blind_writes(rep, prog)
